@@ -131,6 +131,50 @@ def m_replace(body, pred, fn):
     return False
 
 
+def run_seeded(pid, rules, base_keys, only=None):
+    """apply each seeded patch of this property to a scratch copy of /repo's working tree and re-run the rules"""
+    import glob
+    import shutil
+    import subprocess
+    import tempfile
+    out = []
+    for d in sorted(glob.glob(os.path.join(VERIF, "seeded", "*"))):
+        meta_p = os.path.join(d, "meta.json")
+        patch = os.path.join(d, "patch.diff")
+        if not (os.path.exists(meta_p) and os.path.exists(patch)):
+            continue
+        with open(meta_p) as fh:
+            meta = json.load(fh)
+        props = meta.get("detected_by_checks") or [meta.get("property")]
+        if pid not in props and pid != meta.get("property"):
+            continue
+        if only and os.path.basename(d) not in only:
+            continue
+        scratch = tempfile.mkdtemp(prefix="vt-seed-")
+        try:
+            subprocess.check_call(["rsync", "-a", "--exclude", "target", "--exclude", ".git", "--exclude", "tmp", facts.REPO + "/", scratch + "/"])
+            r = subprocess.run(["patch", "-p1", "-s", "--forward", "-i", patch], cwd=scratch, stdout=subprocess.PIPE, stderr=subprocess.STDOUT, text=True)
+            if r.returncode != 0:
+                out.append({"seed": os.path.basename(d), "result": "skipped (patch no longer applies)"})
+                continue
+            try:
+                crates, th = facts.load(repo=scratch)
+            except facts.BrokenBuild as e:
+                out.append({"seed": os.path.basename(d), "result": "skipped (patched tree does not build: %s)" % str(e)[:80]})
+                continue
+            P2 = ir.Program(crates, th)
+            c2 = Check(pid, "thorough", silent=True)
+            try:
+                rules(c2, P2)
+                fired = [v["key"] for v in c2.violations() if v["key"] not in base_keys]
+            except Exception as e:
+                fired = ["exception:" + type(e).__name__]
+            out.append({"seed": os.path.basename(d), "result": "detected" if fired else "MISSED", "keys": fired[:4]})
+        finally:
+            shutil.rmtree(scratch, ignore_errors=True)
+    return out
+
+
 def run(pid, rules, mutants=None, *, level="other", explanation="", not_decided="", trusted_base=(),
         rule_text="", tier="quick", extra_cfg=None):
     """rules(ck, P) records obligations; mutants(P) -> [(name, q, transform)]."""
@@ -166,6 +210,12 @@ def run(pid, rules, mutants=None, *, level="other", explanation="", not_decided=
                 ck.obligations.append(v)
         except facts.BrokenBuild as e:
             cfg2 = {"skipped": str(e)}
+
+    # source-level seeded patches (thorough tier): each must make this check report a new violation
+    seeded = []
+    if tier == "thorough":
+        base_v = {o["key"] for o in ck.obligations if o["status"] == "violation"}
+        seeded = run_seeded(pid, rules, base_v)
 
     # known findings
     known = [k for k in load_known() if k["property"] == pid]
@@ -243,6 +293,7 @@ def run(pid, rules, mutants=None, *, level="other", explanation="", not_decided=
         "selftest_fact_mutants": st,
         "known_findings_hit": [v["key"] for v in known_hit],
         "second_configuration": cfg2,
+        "seeded_source_mutants": seeded,
         "notes": ck.notes,
     }
     ev = {
